@@ -166,7 +166,7 @@ def cases():
             lays = families.all_layouts(3, 3)
             for lay in (lays[::3] if tier == 'quick' else lays):
                 out.append({'label': '%s/layout%s' % (m.name, lay), 'mesh': m, 'fields': fsets[1], 'layout': [lay], 'geom': 1})
-    for r in range(5 if tier == 'quick' else 40):
+    for r in range(5 if tier == 'quick' else 100):
         m = families.random_mesh(rnd, 3, max_levels=3, max_boxes=4, max_extent=4)
         m.name = 'rand%d-3d' % r
         out.append({'label': m.name, 'mesh': m, 'fields': rnd.choice(fsets[:4]), 'layout': families.scatter_layouts(m, rnd, 3), 'geom': rnd.randrange(3)})
